@@ -220,19 +220,21 @@ class PairMon(mon.Monitor):
             w = self.which(n)
             if w is None:
                 return (st,)
-            if w[0] == "a":
-                if st is not None:
-                    self.violate("%s:%s:double-first" % (self.rule, self.fn), "%s.push twice without a matching %s.push" % (self.first, self.second), n, self.cur_trail)
-                return (("odd", w[1]),)
+            # the two pushes of a pair may come in either order; st = (which one is outstanding, its index)
+            name = {"a": self.first, "b": self.second}
             if st is None:
-                self.violate("%s:%s:unpaired-second" % (self.rule, self.fn), "%s.push without a preceding %s.push" % (self.second, self.first), n, self.cur_trail)
-                return (None,)
+                return ((w[0], w[1]),)
+            if st[0] == w[0]:
+                other = name["b" if w[0] == "a" else "a"]
+                self.violate("%s:%s:double-%s" % (self.rule, self.fn, "first" if w[0] == "a" else "second"), "%s.push twice without a matching %s.push" % (name[w[0]], other), n, self.cur_trail)
+                return ((w[0], w[1]),)
             if self.same_index and st[1] != w[1]:
-                self.violate("%s:%s:index" % (self.rule, self.fn), "%s[%s] paired with %s[%s]" % (self.first, st[1], self.second, w[1]), n, self.cur_trail)
+                self.violate("%s:%s:index" % (self.rule, self.fn), "%s[%s] paired with %s[%s]" % (name[st[0]], st[1], name[w[0]], w[1]), n, self.cur_trail)
             self._pair_nodes.add((id(n), self.runner.site()))
             return (None,)
         if kind in ("return", "fn_end", "break", "continue", "latch", "loop_head", "for_head") and st is not None:
-            self.violate("%s:%s:unpaired-first" % (self.rule, self.fn), "a path leaves with %s pushed but not %s" % (self.first, self.second), n, self.cur_trail)
+            name = {"a": self.first, "b": self.second}
+            self.violate("%s:%s:unpaired-%s" % (self.rule, self.fn, "first" if st[0] == "a" else "second"), "a path leaves with %s pushed but not %s" % (name[st[0]], name["b" if st[0] == "a" else "a"]), n, self.cur_trail)
             return (None,)
         return (st,)
 
@@ -246,7 +248,7 @@ def r_push_pair(rep, hc, rule="R-PUSH-PAIR", first="t", second="y", floor=7, sam
     if n < floor:
         rep.inconc(rule, "%s:%s:floor" % (rule, hc.fn), "only %d %s/%s push pairs found (expected >= %d)" % (n, first, second, floor))
     elif not m.violations:
-        rep.ok(rule, "%s:%s" % (rule, hc.fn), "%d push pairs, every %s.push is followed by its %s.push on every path" % (n, first, second))
+        rep.ok(rule, "%s:%s" % (rule, hc.fn), "%d push pairs, every %s.push is matched by its %s.push (in either order, nothing in between leaves the callback) on every path" % (n, first, second))
 
 
 def r_evt_shape(rep, hc):
@@ -775,7 +777,7 @@ def r_term(rep, hc):
         if not (last_t and last_y and te and ye):
             probs.append("no (t, y) push of the event point before returning Interrupt")
         else:
-            if named[-1][0] != "y" or named[-2][0] != "t":
+            if {named[-1][0], named[-2][0]} != {"t", "y"}:
                 probs.append("the event point is not the last sample pushed before Interrupt")
             if last_t[0]["value"] != te[0]["value"]:
                 probs.append("time pushed to t (%r) is not the event time recorded in t_events (%r)" % (last_t[0]["value"], te[0]["value"]))
@@ -1321,7 +1323,16 @@ def r_evt_args(rep, hc, cif=None):
     if len(evs) != 1 or len(evs[0].get("args", [])) != 3:
         rep.inconc("R-EVT-ONE", key, "call of the sign-change test not found in the symbolic trace (%d)" % len(evs))
         return
-    a0, a1, a2 = evs[0]["args"]
+    roles = getattr(hc, "sign_roles", None)
+    if roles is None:
+        # argument roles by the helper's parameter types (and its own earlier/later convention when the table was evaluated)
+        cal = [c_ for _i, c_ in sign_tests(hc.f, hc.body, hc.body["body"])]
+        ps_ = cal[0]["params"] if cal else []
+        di_ = [i for i, p_ in enumerate(ps_) if "Direction" in (p_.get("ty") or "")]
+        fl_ = [i for i, p_ in enumerate(ps_) if "Direction" not in (p_.get("ty") or "")]
+        roles = (fl_[0], fl_[1], di_[0]) if len(di_) == 1 and len(fl_) == 2 else (0, 1, 2)
+    args_ = evs[0]["args"]
+    a0, a1, a2 = args_[roles[0]], args_[roles[1]], args_[roles[2]]
     probs = []
 
     def is_prev(v):
@@ -1781,24 +1792,38 @@ def r_crossed_table(rep, hc):
     if len(ps) != 3:
         rep.inconc("R-CROSSED-TABLE", key0 + ":arity", "crossed has %d parameters" % len(ps))
         return
+    # roles by type, not by position: the Direction parameter, and the two event values in declaration order
+    di = [i for i, p_ in enumerate(ps) if "Direction" in (p_.get("ty") or "")]
+    fl = [i for i, p_ in enumerate(ps) if "Direction" not in (p_.get("ty") or "")]
+    if len(di) != 1 or len(fl) != 2:
+        rep.inconc("R-CROSSED-TABLE", key0 + ":arity", "crossed does not take two event values and a direction")
+        return
     fe = FinEval(b)
-    probs = fe.comparison_only({ps[0]["id"], ps[1]["id"]})
+    probs = fe.comparison_only({ps[fl[0]]["id"], ps[fl[1]]["id"]})
     if probs:
         rep.inconc("R-CROSSED-TABLE", key0 + ":shape", "crossed uses its float arguments outside comparisons with 0.0 (%s): finite abstraction not applicable" % probs[:2])
         return
     dirs = {"All": "solve::event::Direction::All", "Positive": "solve::event::Direction::Positive", "Negative": "solve::event::Direction::Negative"}
-    n = 0
-    table = {}
-    for dn, dd in dirs.items():
-        for ln, lv in REPS.items():
-            for rn, rv in REPS.items():
-                try:
-                    out = fe.ev(b["body"], {ps[0]["id"]: lv, ps[1]["id"]: rv, ps[2]["id"]: ("def", dd)})
-                except Exception as ex:
-                    rep.inconc("R-CROSSED-TABLE", key0 + ":eval", "cannot evaluate crossed(%s,%s,%s): %s" % (ln, rn, dn, ex))
-                    return
-                table[(dn, ln, rn)] = out
-                n += 1
+
+    def tabulate(li, ri):
+        tb = {}
+        for dn, dd in dirs.items():
+            for ln, lv in REPS.items():
+                for rn, rv in REPS.items():
+                    tb[(dn, ln, rn)] = fe.ev(b["body"], {ps[li]["id"]: lv, ps[ri]["id"]: rv, ps[di[0]]["id"]: ("def", dd)})
+        return tb
+    try:
+        table = tabulate(fl[0], fl[1])
+        # which of the two values is the earlier one is the helper's own convention: if the table is the mirror image
+        # (falling reported under Positive for (first, second)), the helper takes (later, earlier)
+        if table[("Positive", "neg", "pos")] is False and table[("Positive", "pos", "neg")] is True:
+            table = tabulate(fl[1], fl[0])
+            fl = [fl[1], fl[0]]
+    except Exception as ex:
+        rep.inconc("R-CROSSED-TABLE", key0 + ":eval", "cannot evaluate crossed: %s" % ex)
+        return
+    n = len(table)
+    hc.sign_roles = (fl[0], fl[1], di[0])
     strict = ("neg", "pos")
     for dn in dirs:
         for ln in strict:
@@ -1931,7 +1956,14 @@ def r_term_taint(rep, hc):
     if outside:
         rep.violation(key, "%s:outside:%s" % (key, outside[0][0]), "EventConfig::terminal_count is read outside the output handler", sp(outside[0][1]))
     inside = [n for d, n in reads if d == hc.body["def"]]
-    if not inside:
+    # `let EventConfig { terminal_count, .. } = ...`: a read by destructuring
+    destructured = []
+    for lt in tast.find(hc.body["body"], lambda z: z.get("k") in ("Let", "LetExpr") and z.get("init") is not None):
+        for ps in tast.find(lt["pat"], lambda z: z.get("k") == "PStruct" and (z.get("def") or "").endswith("EventConfig")):
+            for fp in ps.get("fields", []):
+                if fp["name"] == "terminal_count":
+                    destructured += [q["id"] for q in tast.find(fp["pat"], lambda q: q.get("k") == "PBind")]
+    if not inside and not destructured:
         rep.inconc(key, key + ":floor", "no read of terminal_count in the handler")
         return
     # the bound `limit` is used only in comparisons
@@ -1946,7 +1978,7 @@ def r_term_taint(rep, hc):
     # or performs no effect before the iteration ends (typestate over all paths)
     is_tc = lambda q: q.get("k") == "Field" and (q.get("fdef") or "").endswith("EventConfig::terminal_count")
     body = hc.body["body"]
-    tainted = set()
+    tainted = set(destructured)
     for lt in tast.find(body, lambda z: z.get("k") in ("LetExpr", "Let") and z.get("init") is not None and tast.contains(z["init"], is_tc)):
         for bnd in tast.find(lt["pat"], lambda z: z.get("k") == "PBind"):
             tainted.add(bnd["id"])
@@ -2184,17 +2216,126 @@ def r_mode2_record(rep, hc):
             a = lets[0]["init"] if lets and lets[0].get("init") else a
         xend_id = sv["params"][2].get("id")
         x0_id = sv["params"][1].get("id")
-        bounded = tast.contains(a, lambda z: z.get("k") == "MethodCall" and z.get("name") in ("filter",) and tast.contains(
-            z["args"][0], lambda q: q.get("k") == "Binary" and q["op"] in ("Le", "Lt")
-            and tast.contains(q["l"], lambda w: w.get("k") == "MethodCall" and w.get("name") == "abs")
-            and tast.contains(q["r"], lambda w: w.get("k") == "Path" and w.get("id") == xend_id)
-            and tast.contains(q["r"], lambda w: w.get("k") == "Path" and w.get("id") == x0_id)))
+        # evaluate the argument as an Option<f64> at model points: first_step = Some(v) for |v| below, at and above the span,
+        # both signs, both directions: the handler may only be given None or Some(v) with |v| <= |xend - x0|
+        import dense as _dense
+
+        class _Opt(_dense.NumEval):
+            def __init__(self, body, model):
+                self.env = {}
+                self.model = model
+                super().__init__(body, self._leaf)
+
+            def _leaf(self, e):
+                if e.get("k") == "Path" and e.get("res") == "local":
+                    if e.get("id") in self.env:
+                        return self.env[e["id"]]
+                    if e.get("id") == xend_id:
+                        return self.model["xend"]
+                    if e.get("id") == x0_id:
+                        return self.model["x0"]
+                return None
+
+            def bind(self, pat, v):
+                for q in tast.find(pat, lambda q: q.get("k") == "PBind"):
+                    self.env[q["id"]] = v
+
+            def opt(self, e, depth=0):
+                if e is None or depth > 30:
+                    raise _dense._NoEval("depth")
+                k = e.get("k")
+                if k in ("DropTemps", "Paren", "Cast", "AddrOf") or (k == "Unary" and e.get("op") == "Deref"):
+                    return self.opt(e["e"], depth + 1)
+                if k == "Block":
+                    return self.opt(e.get("tail") if e.get("tail") is not None else e.get("expr"), depth + 1)
+                if k == "Field" and (e.get("fdef") or "").endswith("Options::first_step"):
+                    return self.model["first"]
+                if k == "Path" and e.get("res") == "local":
+                    if e.get("id") in self.env:
+                        return ("Some", self.env[e["id"]]) if not isinstance(self.env[e["id"]], tuple) else self.env[e["id"]]
+                    init = self.let_of(e["id"])
+                    if init is None:
+                        raise _dense._NoEval("local %s" % e.get("name"))
+                    return self.opt(init, depth + 1)
+                if k == "Path" and (e.get("def") or "").endswith("None"):
+                    return ("None",)
+                if k == "Call" and (e.get("def") or "").endswith("Some") and len(e["args"]) == 1:
+                    return ("Some", self.ev(e["args"][0], depth + 1))
+                if k == "MethodCall":
+                    nm = e.get("name")
+                    if nm in ("copied", "cloned", "as_ref", "clone", "take"):
+                        return self.opt(e["recv"], depth + 1)
+                    if nm in ("filter", "map", "and_then") and e["args"] and e["args"][0].get("k") == "Closure":
+                        o = self.opt(e["recv"], depth + 1)
+                        if o[0] == "None":
+                            return o
+                        cl = e["args"][0]
+                        for p_ in (cl["params"] if isinstance(cl["params"], list) else [cl["params"]]):
+                            self.bind(p_, o[1])
+                        if nm == "filter":
+                            return o if self.ev(cl["body"], depth + 1) else ("None",)
+                        if nm == "map":
+                            return ("Some", self.ev(cl["body"], depth + 1))
+                        return self.opt(cl["body"], depth + 1)
+                    if nm in ("then", "then_some") and len(e["args"]) == 1:
+                        if not self.ev(e["recv"], depth + 1):
+                            return ("None",)
+                        a_ = e["args"][0]
+                        return ("Some", self.ev(a_["body"] if a_.get("k") == "Closure" else a_, depth + 1))
+                if k == "If":
+                    c = e["cond"]
+                    if c.get("k") == "LetExpr":
+                        o = self.opt(c["init"], depth + 1)
+                        is_some_pat = (c["pat"].get("ctor_of") or c["pat"].get("def") or "").endswith("Some")
+                        if (o[0] == "Some") == is_some_pat:
+                            if o[0] == "Some":
+                                self.bind(c["pat"], o[1])
+                            return self.opt(e["then"], depth + 1)
+                        return self.opt(e.get("else"), depth + 1) if e.get("else") is not None else ("None",)
+                    return self.opt(e["then"] if self.ev(c, depth + 1) else e.get("else"), depth + 1)
+                if k == "Match":
+                    o = self.opt(e["scrut"], depth + 1)
+                    for arm in e["arms"]:
+                        pt = arm["pat"]
+                        nm_ = (pt.get("ctor_of") or pt.get("def") or "")
+                        if pt.get("k") in ("PWild",) or (pt.get("k") == "PBind" and not pt.get("sub")):
+                            hit = True
+                        elif nm_.endswith("Some"):
+                            hit = o[0] == "Some"
+                            if hit:
+                                self.bind(pt, o[1])
+                        elif nm_.endswith("None"):
+                            hit = o[0] == "None"
+                        else:
+                            raise _dense._NoEval("pattern")
+                        if hit and arm.get("guard") is not None and not self.ev(arm["guard"], depth + 1):
+                            hit = False
+                        if hit:
+                            return self.opt(arm["body"], depth + 1)
+                    raise _dense._NoEval("no arm")
+                raise _dense._NoEval("node %s" % k)
+        bounded, witness, n_pts = True, None, 0
+        try:
+            for x0v, xev in ((0.0, 2.0), (2.0, 0.0), (-1.0, 3.0), (3.0, -1.0), (1.0, 1.5)):
+                span = abs(xev - x0v)
+                for fac in (0.25, 0.5, 1.0, 1.0000001, 1.5, 10.0):
+                    for sg in (1.0, -1.0):
+                        v = sg * fac * span
+                        ev_ = _Opt(sv["body"], {"x0": x0v, "xend": xev, "first": ("Some", v)})
+                        o = ev_.opt(news[0]["args"][3])
+                        n_pts += 1
+                        if o[0] == "Some" and (abs(o[1]) > span):
+                            bounded = False
+                            witness = witness or (x0v, xev, v)
+        except _dense._NoEval as ex:
+            rep.inconc("R-MODE2-RECORD", key, "the first-output argument of DefaultSolOut::new was not evaluated (%s)" % ex, sp(news[0]))
+            return
         if bounded:
-            rep.ok("R-MODE2-RECORD", key, "the first_step handed to the output handler is limited to |xend - x0|")
+            rep.ok("R-MODE2-RECORD", key, "the first_step handed to the output handler is None or within |xend - x0| at %d model points (both directions, both signs)" % n_pts)
         else:
             rep.violation("R-MODE2-RECORD", key,
                           "the output handler skips accepted steps until x0 + first_step is reached, but solve_ivp passes first_step unbounded: "
-                          "with first_step > |xend - x0| no step is ever reported (t = [x0], Success)", sp(news[0]))
+                          "with first_step > |xend - x0| no step is ever reported (t = [x0], Success)%s" % ((" [x0=%g, xend=%g, first_step=%g]" % witness) if witness else ""), sp(news[0]))
 
 
 def r_dir_from(rep, f):
